@@ -9,7 +9,12 @@ pub mod c09;
 pub mod chunky_impls;
 pub mod interval;
 pub mod c10;
+pub mod c11;
+pub mod c14;
+pub mod c16;
 pub mod hist06;
+pub mod hist12;
+pub mod hist13;
 pub mod quantile;
 pub mod quantile_plans;
 
@@ -34,7 +39,13 @@ pub fn plan(prop: &str, tier: Tier) -> Option<Plan> {
         "C08" => Some(c08::plan(tier)),
         "C09" => Some(c09::plan(tier)),
         "C10" => Some(c10::plan(tier)),
+        "C11" => Some(c11::plan(tier)),
+        "C12" => Some(hist12::plan(tier)),
+        "C13" => Some(hist13::plan(tier)),
+        "C14" => Some(c14::plan(tier)),
         "C15" => Some(quantile_plans::plan15(tier)),
+        "C16" => Some(c16::plan(tier)),
+        "C15x" => Some(quantile_plans::plan15(tier)),
         _ => None,
     }
 }
